@@ -96,6 +96,7 @@ class ByNameSub(ByName):
     pass
 
 
+_late = [0]
 _drv = None
 
 
@@ -154,6 +155,18 @@ def chunk_fn(cases):
                 pp.register_pretty(ByName.__module__ + '.' + ByName.__qualname__)(_pretty_byname)
                 obs['pretty_repr(others)'] = [repr(RegisteredSub(value)), repr(ByNameSub(value)), repr(ByName(value))]
                 obs['pformat(others)'] = [pp.pformat(RegisteredSub(value)), pp.pformat(ByNameSub(value)), pp.pformat(ByName(value))]
+                # a type whose repr is taken once BEFORE its printer is registered (plain object repr, with a warning), then registered:
+                # from then on pretty_repr must use the printer like every other entry point (no remembered "has no printer")
+                _late[0] += 1
+                Late = type('Late%d' % _late[0], (), {'__repr__': pp.pretty_repr, '__init__': lambda self, p: setattr(self, 'payload', p)})
+                LateSub = type('LateSub%d' % _late[0], (Late,), {})
+                with warnings.catch_warnings():
+                    warnings.simplefilter('ignore')
+                    repr(Late(value))
+                    repr(LateSub(value))
+                pp.register_pretty(Late)(lambda v, ctx, _c=Late: pp.pretty_call_alt(ctx, 'Late', args=(v.payload,)))
+                obs['pretty_repr(late)'] = [repr(Late(value)), repr(LateSub(value))]
+                obs['pformat(late)'] = [pp.pformat(Late(value)), pp.pformat(LateSub(value))]
         except Exception as e:
             obs['error'] = '%s: %s' % (type(e).__name__, e)
         finally:
@@ -202,6 +215,8 @@ def chunk_fn(cases):
             bad = 'pretty_repr != pformat for a registered type'
         elif obs['pretty_repr(others)'] != obs['pformat(others)']:
             bad = 'pretty_repr != pformat for a subclass of a registered type / a type registered by name: %r vs %r' % (obs['pretty_repr(others)'], obs['pformat(others)'])
+        elif obs['pretty_repr(late)'] != obs['pformat(late)']:
+            bad = 'pretty_repr != pformat for a type registered after its first repr: %r vs %r' % (obs['pretty_repr(late)'], obs['pformat(late)'])
         elif obs['pformat(all six explicit)'] != obs['pformat']:
             bad = 'an explicit argument is not honoured or a missing one does not take the configured default: pformat(v, **given) != pformat(v, **effective)'
         elif dflt != d_spec:
